@@ -347,7 +347,7 @@ Error BaseBuilder::section_node_of(Out<SectionNode*> out, uint32_t section_id) {
   out = nullptr;
 
   if (ASMJIT_UNLIKELY(!_code)) {
-    return make_error(Error::kNotInitialized);
+    return report_error(make_error(Error::kNotInitialized));
   }
 
   if (ASMJIT_UNLIKELY(!_code->is_section_valid(section_id))) {
@@ -384,7 +384,7 @@ Error BaseBuilder::section_node_of(Out<SectionNode*> out, uint32_t section_id) {
 
 Error BaseBuilder::section(Section* section) {
   if (ASMJIT_UNLIKELY(!_code)) {
-    return make_error(Error::kNotInitialized);
+    return report_error(make_error(Error::kNotInitialized));
   }
 
   // The section must be the one the attached CodeHolder holds under that id (like BaseAssembler::section()).
@@ -451,7 +451,7 @@ Error BaseBuilder::label_node_of(Out<LabelNode*> out, uint32_t label_id) {
   out = nullptr;
 
   if (ASMJIT_UNLIKELY(!_code)) {
-    return make_error(Error::kNotInitialized);
+    return report_error(make_error(Error::kNotInitialized));
   }
 
   uint32_t index = label_id;
@@ -646,7 +646,7 @@ Error BaseBuilder::_emit(InstId inst_id, const Operand_& o0, const Operand_& o1,
 
   if (Support::test(options, InstOptions::kReserved)) {
     if (ASMJIT_UNLIKELY(!_code)) {
-      return make_error(Error::kNotInitialized);
+      return report_error(make_error(Error::kNotInitialized));
     }
 
 #ifndef ASMJIT_NO_INTROSPECTION
@@ -711,7 +711,7 @@ Error BaseBuilder::_emit(InstId inst_id, const Operand_& o0, const Operand_& o1,
 
 Error BaseBuilder::align(AlignMode align_mode, uint32_t alignment) {
   if (ASMJIT_UNLIKELY(!_code)) {
-    return make_error(Error::kNotInitialized);
+    return report_error(make_error(Error::kNotInitialized));
   }
 
   AlignNode* node;
@@ -727,7 +727,7 @@ Error BaseBuilder::align(AlignMode align_mode, uint32_t alignment) {
 
 Error BaseBuilder::embed(const void* data, size_t data_size) {
   if (ASMJIT_UNLIKELY(!_code)) {
-    return make_error(Error::kNotInitialized);
+    return report_error(make_error(Error::kNotInitialized));
   }
 
   EmbedDataNode* node;
@@ -740,7 +740,7 @@ Error BaseBuilder::embed(const void* data, size_t data_size) {
 
 Error BaseBuilder::embed_data_array(TypeId type_id, const void* data, size_t item_count, size_t item_repeat) {
   if (ASMJIT_UNLIKELY(!_code)) {
-    return make_error(Error::kNotInitialized);
+    return report_error(make_error(Error::kNotInitialized));
   }
 
   EmbedDataNode* node;
@@ -753,7 +753,7 @@ Error BaseBuilder::embed_data_array(TypeId type_id, const void* data, size_t ite
 
 Error BaseBuilder::embed_const_pool(const Label& label, const ConstPool& pool) {
   if (ASMJIT_UNLIKELY(!_code)) {
-    return make_error(Error::kNotInitialized);
+    return report_error(make_error(Error::kNotInitialized));
   }
 
   if (!is_label_valid(label)) {
@@ -812,7 +812,7 @@ Error BaseBuilder::embed_label_delta(const Label& label, const Label& base, size
 
 Error BaseBuilder::comment(const char* data, size_t size) {
   if (ASMJIT_UNLIKELY(!_code)) {
-    return make_error(Error::kNotInitialized);
+    return report_error(make_error(Error::kNotInitialized));
   }
 
   CommentNode* node;
